@@ -217,8 +217,54 @@ def run(prog: Program, res: Result) -> None:  # noqa: PLR0912, PLR0915
 
     # ------------------------------------------------------------------ R4 carry ownership
     res.rule("C18.R4", "in every Tag.parse, each parse_block is entered with the trim carry of the tag immediately before that block (at most one tag token consumed since the carry was set)")
-    check_trim_carry_ownership(prog, res, "C18.R4")
+    res.rule("C18.R4b", "every block tag's parse hands the parser the trim carry of the tag the stream is left on: on every path to a return the last carry event is the closing parse_block (which records the end tag's marker) or an explicit store, with no tag consumed since")
+    check_trim_carry_ownership(prog, res, "C18.R4", exit_rule="C18.R4b")
     # the dispatcher refreshes the carry for every tag it dispatches (R3 arm check) and parse_block leaves it set for the end tag
+
+    # ------------------------------------------------------------------ R6 token boundaries are markup boundaries
+    res.rule("C18.R6", "no pattern of the lexer uses the `$` anchor (it also matches before a final newline): text is split into content tokens only at markup openers and at the absolute end of input (\\Z), so the whitespace a marker acts on never depends on a lexing artefact")
+    import re._parser as _sp
+
+    lexer_cls = prog.mod("liquid2/lexer.py").classes.get("Lexer")
+    if lexer_cls is None:
+        raise AnalysisError("Lexer class vanished")
+
+    def _has_dollar(items) -> bool:  # noqa: ANN001
+        for op, av in items:
+            if str(op) == "AT" and str(av) == "AT_END":
+                return True
+            stack = [av]
+            while stack:
+                x = stack.pop()
+                if isinstance(x, _sp.SubPattern):
+                    if _has_dollar(x.data):
+                        return True
+                elif isinstance(x, (tuple, list)):
+                    stack.extend(x)
+        return False
+
+    n_pat = 0
+    for name, v in sorted(lexer_cls.class_attrs.items()):
+        pats: list[tuple[str, str, int]] = []
+        if isinstance(v, ast.Call) and norm(v.func) == "re.compile" and v.args:
+            pats.append((name, "".join(a.value for a in ast.walk(v.args[0]) if isinstance(a, ast.Constant) and isinstance(a.value, str)), v.lineno))
+        elif isinstance(v, ast.Dict):
+            for k, val in zip(v.keys, v.values):
+                pat = "".join(a.value for a in ast.walk(val) if isinstance(a, ast.Constant) and isinstance(a.value, str))
+                if pat and isinstance(k, ast.Constant):
+                    pats.append((f"{name}[{k.value!r}]", pat, val.lineno))
+        for label, pat, line in pats:
+            try:
+                parsed = _sp.parse(pat)
+            except Exception:  # noqa: BLE001
+                continue  # not a regular expression (e.g. a keyword table)
+            n_pat += 1
+            what = f"Lexer.{label} has no `$` anchor"
+            if _has_dollar(parsed.data):
+                res.fail("C18.R6", file=lexer_cls.file, line=line, qualname=f"Lexer.{label}", construct=f"`$` in Lexer.{label}", message=f"Lexer.{label} contains the `$` anchor, which also matches before a trailing newline: a final '\\n' becomes a token of its own that the preceding markup's whitespace-control marker does not reach ('{{{{ v -}}}} \\n' keeps its newline, '{{{{ v -}}}}\\n' does not)", what=what)
+            else:
+                res.ok("C18.R6", f"{lexer_cls.file}:{line} Lexer.{label}", what, "only \\Z / look-ahead on markup openers")
+    res.floor("C18.R6", "lexer patterns parsed", n_pat, 20)
 
     # ------------------------------------------------------------------ R5 text is carried character for character
     res.rule("C18.R5", "with no trimming in force literal text is reproduced character for character: neither the output buffers nor the loaders' file reads translate line endings (shared with C06.R2 / C20.R5)")
